@@ -287,6 +287,7 @@ Verdict check_all(const Pool & p, size_t step, const char * what)
             continue;
         }
         auto got = p.impl[s]->read_all(*p.model[s]);
+        digest("history", got.data(), got.size() * sizeof(double));
         const auto & want = p.model[s]->val;
         if (got.size() != want.size()) {
             return "after step " + std::to_string(step) + " (" + what + "): slot " + std::to_string(s) + " has " + std::to_string(got.size()) + " values, model " + std::to_string(want.size());
@@ -494,6 +495,7 @@ Verdict run(const Case & c)
     // every object the interpreter creates is destroyed when it returns: the allocator's
     // live-byte count must come back to where it was (cheap per-history leak oracle;
     // LeakSanitizer itself runs every few hundred histories and at exit)
+    digest("history", "", 0);   // make sure the digest slot exists before the allocator is sampled
     const size_t before = allocated_now();
     Verdict v = interpret(c, info);
     const size_t after = allocated_now();
